@@ -306,17 +306,41 @@ def classify_response(raw):
     return "ok"
 
 
+def make_exception(kind, c):
+    """The exceptions application callbacks raise in practice: with a
+    message, without any argument (bare `raise RuntimeError`, a failed
+    `assert`, StopIteration from next()), with a non-string argument."""
+    if kind == "noargs":
+        return RuntimeError()
+    if kind == "assert":
+        return AssertionError()
+    if kind == "stopiter":
+        return StopIteration()
+    if kind == "keyerror":
+        return KeyError(c)
+    if kind == "unicode":
+        return ValueError("callback %d f\u00e4ils \U0001F600 %%s %%d" % c)
+    return RuntimeError("callback %d fails" % c)
+
+
+RAISE_KINDS = ["msg", "noargs", "assert", "stopiter", "keyerror", "unicode"]
+
+
 class Scenario:
     """One controlled execution of a real listener."""
 
     def __init__(self, senders, nind, ncb, maxq, raising_cb=0, restart=False,
-                 slow_steps=1):
+                 slow_steps=1, raise_kind="msg", late_cb=False):
         self.sched = Sched()
         self.senders = senders
         self.nind = nind
         self.ncb = ncb
         self.maxq = maxq
         self.raising_cb = raising_cb
+        self.raise_kind = raise_kind    # what a raising callback raises
+        self.late_cb = late_cb          # add_callback() while running
+        self.started_once = False
+        self.main_finished = False
         self.restart = restart
         self.slow_steps = slow_steps
         self.server = None
@@ -413,7 +437,7 @@ class Scenario:
             sched.emit(ev="deliver", c=c, s=indication["Sender"],
                        n=int(indication["Seq"]), raised=raising)
             if raising:
-                raise RuntimeError("callback %d fails" % c)
+                raise make_exception(self.raise_kind, c)
         cb.__name__ = "callback_%d" % c
         return cb
 
@@ -431,7 +455,10 @@ class Scenario:
             for r in range(rounds):
                 try:
                     self.listener.start()
-                    sched.emit(ev="started", ncb=self.ncb, ok=True, exc="")
+                    sched.emit(ev="started",
+                               ncb=len(self.listener._callbacks), ok=True,
+                               exc="")
+                    self.started_once = True
                 except Exception as exc:  # noqa
                     sched.emit(ev="started", ncb=self.ncb, ok=False,
                                exc=type(exc).__name__)
@@ -450,6 +477,30 @@ class Scenario:
                 if exc:
                     # can the listener be started again?
                     pass
+        finally:
+            self.main_finished = True
+            sched.end()
+
+    def adder_body(self):
+        try:
+            self._adder()
+        except Abort:
+            pass
+
+    def _adder(self):
+        # the application registers one more callback while the listener runs
+        sched = self.sched
+        sched.begin("adder")
+        try:
+            sched.point("adder: add_callback",
+                        enabled=lambda: self.started_once or self.main_finished)
+            c = self.ncb + 1
+            try:
+                self.listener.add_callback(self.make_callback(c))
+                exc = ""
+            except Exception as e:  # noqa
+                exc = type(e).__name__
+            sched.emit(ev="add_callback", c=c, exc=exc)
         finally:
             sched.end()
 
@@ -495,6 +546,10 @@ class Scenario:
                 sched.register(s)
                 ths.append(threading.Thread(target=self.sender_body, args=(s,),
                                             name=s, daemon=True))
+            if self.late_cb:
+                sched.register("adder")
+                ths.append(threading.Thread(target=self.adder_body,
+                                            name="adder", daemon=True))
             for t in ths:
                 t.start()
             outcome = "machinery:unfinished"
